@@ -92,6 +92,47 @@ def one(ctx, FP, d, delta):
             core.fl(v["bound"]), worst, wl), replay, found_input=worst > 2e-9)
 
 
+def one_gamma(ctx, FP, d, gamma):
+    """gamma passed directly: x = T_{1/L}(1/delta) = 1/gamma exactly (delta may be far below binary64 range)"""
+    drv = ctx.driver()
+    with core.quiet():
+        ph = [float(v) for v in FP.FPSearch(verbose=False).generate(d, gamma=gamma)]
+    ctx.count("gamma-direct")
+    ctx.case(["gamma", d, gamma], True, {"d": d, "gamma": gamma, "phases": ph[:4]})
+    replay = {"d": d, "gamma": gamma}
+    if len(ph) != 2 * d or ph != ph[::-1] or not P.finite(ph):
+        ctx.violation("c18:layout", "generate(d, gamma=...) does not return 2d finite palindromic phases", dict(replay, phases=ph))
+        return
+    line = drv.ask("valid.fp %d %d %s %s %s" % (P.BITS, d, rs(1 / F(gamma)), rs(Fraction(1, 10 ** 9)), rl(F(v) for v in ph)))
+    v = P.vparse(line)
+    if v.get("err"):
+        raise core.InfraError("validator error " + line)
+    ctx.extra["worst_bound"] = max(ctx.extra.get("worst_bound", 0.0), core.fl(v["bound"]))
+    if not v["ok"]:
+        L = 2 * d + 1
+        lams = np.linspace(0, 1, 801) ** 3            # dense near 0, where the fixed-point width lies
+        worst, wl = 0.0, None
+        for lam in lams:
+            a, b = math.sqrt(lam), math.sqrt(1 - lam)
+            R = np.array([[a, b], [b, -a]], dtype=complex)
+            U = R.copy()
+            for q in ph:
+                U = U @ np.diag([np.exp(1j * q), np.exp(-1j * q)]) @ R
+            y = b / gamma
+            lx = L * math.acosh(1 / gamma)                 # log(2 T_L(x)) up to 1 + e^{-2 lx}
+            if abs(y) <= 1:
+                tl_ratio = math.cos(L * math.acos(y)) * 2 * math.exp(-lx) / (1 + math.exp(-2 * lx)) if lx < 700 else 0.0
+            else:
+                ly = L * math.acosh(abs(y))
+                tl_ratio = math.exp(ly - lx) * (1 + math.exp(-2 * ly)) / (1 + math.exp(-2 * lx))
+            closed = 1 - tl_ratio ** 2
+            if abs(abs(U[0, 0]) ** 2 - closed) > worst:
+                worst, wl = abs(abs(U[0, 0]) ** 2 - closed), float(lam)
+        replay.update({"phases": ph, "validator": line[:200], "lambda_with_largest_float_deviation": wl, "float_deviation": worst})
+        ctx.violation("c18:probability:gamma-direct", "with gamma passed directly the success probability deviates from the closed form (certified bound %.3e > 1e-9; float deviation %.3e at lambda=%s)" % (
+            core.fl(v["bound"]), worst, wl), replay, found_input=worst > 2e-9)
+
+
 def run(tier, seed):
     ctx = core.Ctx(PROP, tier, seed, "translation_validation", ["C18"])
     ctx.axioms = core.audit(ctx.modules)
@@ -107,6 +148,9 @@ def run(tier, seed):
         for _ in range(reps):
             delta = float(10 ** rng.uniform(-3, -0.02))
             one(ctx, FP, d, delta)
+    for d, g in ([(3, 0.5), (12, 0.1), (40, 0.3), (110, 0.05)] if tier == "quick" else
+                 [(1, 0.9), (3, 0.5), (12, 0.1), (40, 0.3), (64, 0.02), (110, 0.05), (150, 0.15), (200, 0.3)]):
+        one_gamma(ctx, FP, d, g)
     ctx.assumptions = ["the closed form for all (d, delta) at once is the analytic theorem of Yoder-Low-Chuang (not formalised): it is certified per (d, delta) instance, over the whole continuum of lambda",
                        "T_{1/L}(1/delta) is represented by a rational x with |1/T_L(x) - delta| <= 1e-12 delta (checked exactly)"]
     return ctx.finish(
